@@ -10,6 +10,7 @@ compared with the reference lexer model of ``mc/ref/c10_model.py``.
 from __future__ import annotations
 
 import itertools
+import re
 from typing import Any
 from typing import Iterator
 from typing import Optional
@@ -34,6 +35,56 @@ SHORT_BODIES = [" c ", "c", " {{ x }} {% if %} "]
 BODIES = {"RAW": RAW_BODIES, "COMMENT": COMMENT_BODIES, "DOC": DOC_BODIES, "SHORT": SHORT_BODIES}
 
 ENVS = {"default": {}, "template_comments": {"template_comments": True}}
+
+# Markup-like / unbalanced fragments used as raw / comment / doc / shorthand bodies in BOTH environments.
+FRAG_BODIES = [
+    " {{ ", " {{ unfinished", " {% ", " {%- unfinished ", " }} %} { % ", "{%", "{{", " {% # ", "{% liquid ",
+    " {# ", " #} ", " {# c #} ", " {#- c -#} ",
+    " {% doc %} ", " {% enddoc %} ", " {% comment %} ", " {% endcomment %} ", " {% raw %} ", " {% endraw %} ",
+    " {% comment %}{% endcomment %} ", " {% raw %}{% endraw %} ", " {% doc %}{% enddoc %} ",
+    " {% comment %} {{ {% endcomment %} ", " {{ y }} {% assign z = 1 %} ", "\n  @param {string} x - y\n",
+]
+FRAG_CTX: list[Optional[tuple[Any, ...]]] = [None, ("T", " a "), ("T", "\n "), ("OUT", "-", "-")]
+
+
+def _ntags(body: str, name: str) -> int:
+    return len(re.findall(r"\{%-?\s*" + name + r"\s*-?%\}", body))
+
+
+def frag_status(kind: str, body: str, tc: bool) -> str:
+    """Is the expected result of a block with this body fixed by the statement / docs?
+
+    "model": yes - the reference model applies (raw body verbatim, comment/doc/shorthand body dropped,
+             no error).
+    "diff":  silent (excluded from the model and counted); the only clause applied is that enabling
+             template comments changes nothing for a source without "{#" (Environment docs: with
+             template_comments "anything between {# and #} is considered a comment" - nothing else).
+    "skip":  outside the domain (the body contains the block's own end tag, so the source does not
+             read as this item list) or silent with no applicable relation.
+    """
+    rest = re.sub(r"\{%.*?%\}|\{\{.*?\}\}", "", body, flags=re.DOTALL)
+    if tc:
+        rest = re.sub(r"\{#.*?#\}", "", rest, flags=re.DOTALL)
+    unfinished = "{%" in rest or "{{" in rest or (tc and "{#" in rest)
+    unbalanced = _ntags(body, "comment") != _ntags(body, "endcomment") or _ntags(body, "raw") != _ntags(body, "endraw")
+    if kind == "RAW":
+        # tag_reference.md raw: "Any text between raw and endraw will not be interpreted as Liquid markup"
+        return "skip" if _ntags(body, "endraw") else "model"
+    if kind == "SHORT":
+        # "anything between {# and #}"
+        return "skip" if "#}" in body else "model"
+    if kind == "DOC":
+        if _ntags(body, "enddoc"):
+            return "skip"
+        # nested doc tags / unbalanced comment or raw tags inside doc text: docs are silent
+        return "diff" if (_ntags(body, "doc") or unbalanced) else "model"
+    if kind == "COMMENT":
+        if _ntags(body, "endcomment") > _ntags(body, "comment"):
+            return "skip"
+        # tag_reference.md: matching comment/raw pairs are OK, unbalanced ones are a syntax error; an
+        # unfinished delimiter inside comment text is not addressed
+        return "diff" if (unbalanced or unfinished) else "model"
+    raise AssertionError(kind)
 
 
 def T(s: str) -> tuple[Any, ...]:
@@ -147,6 +198,17 @@ def gen_cases(shard: Any, tier: str) -> Iterator[list[Any]]:
                                     yield [x for x in (before, ("WRAP", name, *m)) if x is not None]
                                 continue
                             yield [x for x in (before, ("WRAP", name, *m), inner, after) if x is not None]
+    elif part == "frag":
+        _, _, kind = shard
+        for body in FRAG_BODIES:
+            if kind == "SHORT":
+                blocks = [("SHORT", l, body, r) for l, r in LR]
+            else:
+                blocks = [(kind, m[0], m[1], body, m[2], m[3]) for m in LRLR]
+            for blk in blocks:
+                for before in FRAG_CTX:
+                    for after in FRAG_CTX:
+                        yield [x for x in (before, blk, after) if x is not None]
     elif part == "littext":
         # with template comments off, "{# ... #}" is ordinary text
         frags = ["{# c #}", " {#- c -#} ", "#}", "{#"]
@@ -268,6 +330,55 @@ def check_case(env: Any, envname: str, items: Sequence[Any], res: Optional[Resul
     return viols
 
 
+def check_diff(items: Sequence[Any], res: Optional[Result]) -> list[dict[str, Any]]:
+    """Cell not fixed by statement/docs: only require that template_comments=True changes nothing
+    for a source that contains no "{#"."""
+    lex = M.flatten(items)
+    src = M.source(lex)
+    if "{#" in src or not M.in_domain(M.merge(lex), True):
+        if res is not None:
+            res.count("unspecified_excluded")
+            res.count("unspecified_body_no_relation_applicable")
+        return []
+    a = real_render(get_env("default"), src)
+    b = real_render(get_env("template_comments"), src)
+    viols: list[dict[str, Any]] = []
+    if a != b:
+        blk = next(i for i in items if i[0] in M.BLOCKS)
+        viols.append({
+            "signature": {"clause": "template-comments-only-affect-shorthand-comments", "kind": blk[0].lower(),
+                          "default": a[1] if a[0] == "err" else "ok",
+                          "template_comments": b[1] if b[0] == "err" else "ok"},
+            "what": f"{src!r} contains no '{{#' but default -> {a[1]!r} and template_comments=True -> {b[1]!r}",
+            "case": {"mode": "diff", "env": "both", "items": [list(i) for i in items], "source": src}})
+    if res is not None:
+        res.count("unspecified_excluded")
+        res.count("unspecified_body_cross_env_only")
+        res.case(nontrivial=f"diff|{src}", outcome=("viol" if viols else "ok") + ":diff:" + (a[1] if a[0] == "err" else "ok"))
+        for v in viols:
+            res.violation(v["signature"], v["what"], v["case"])
+    return viols
+
+
+def run_frag(envname: str, items: Sequence[Any], res: Optional[Result]) -> list[dict[str, Any]]:
+    blk = next(i for i in items if i[0] in M.BLOCKS or i[0] == "SHORT")
+    body = blk[2] if blk[0] == "SHORT" else blk[3]
+    status = frag_status(blk[0], body, envname == "template_comments")
+    if status == "model":
+        return check_case(get_env(envname), envname, items, res)
+    if status == "diff":
+        if envname == "default":  # one comparison per source
+            return check_diff(items, res)
+        if frag_status(blk[0], body, False) != "diff" and res is not None:
+            # only silent because of an unfinished "{#": no relation applies
+            res.count("unspecified_excluded")
+            res.count("unspecified_body_no_relation_applicable")
+        return []
+    if res is not None:
+        res.count("body_contains_own_end_tag_excluded")
+    return []
+
+
 class C10(Check):
     id = "C10"
     level = "exploration"
@@ -288,6 +399,11 @@ class C10(Check):
         "a control-flow block whose content renders to whitespace only may render it or nothing "
         "(suppress_blank_control_flow_blocks is documented default behaviour): both accepted",
         "output value 'v', tag outputs 'w': values themselves are not the subject of this property",
+        "block bodies: raw - any text without an endraw tag; shorthand - any text without '#}'; doc - any text "
+        "without doc/enddoc tags and with balanced comment/raw tags; comment - finished delimiters and balanced "
+        "comment/raw tags. Other bodies (nested doc, unbalanced comment/raw inside doc, unfinished delimiters or "
+        "unbalanced tags inside comment) are not fixed by statement/docs: they are only required to behave the "
+        "same with template_comments on and off when the source has no '{#'",
     ]
 
     def bounds(self, tier: str) -> dict[str, Any]:
@@ -301,6 +417,10 @@ class C10(Check):
             "longer_sequences": [f"length {n} over the {s}-instance menu (+shorthand comments when enabled)"
                                  for s, n in conf["extra"]],
             "bodies_sweep": "raw/comment/doc/shorthand: 16 (4) marker combinations x every body x 13x13 contexts",
+            "fragment_bodies": f"raw/comment/doc (both environments) and shorthand comments: {len(FRAG_BODIES)} markup-like / "
+                               "unbalanced bodies ('{{', '{%', '{#', '#}', lone and paired doc/comment/raw tags, ...) x "
+                               "16 (4) marker combinations x 4x4 contexts; cells the statement/docs do not fix are "
+                               "excluded from the model, counted, and only compared across the two environments",
             "tag_kinds_sweep": "assign, inline(+multi-line), liquid(+multi-line), echo, cycle x 4 markers x 13x13 "
                                "contexts; if/unless/for wraps x 16 markers x 12 inner x 5x5 contexts",
             "environments": list(ENVS),
@@ -322,6 +442,8 @@ class C10(Check):
                 sh.append(("bodies", envname, kind))
             for name in list(M.SINGLE) + list(M.WRAPS):
                 sh.append(("kinds", envname, name))
+            for kind in ("RAW", "COMMENT", "DOC") + (("SHORT",) if envname == "template_comments" else ()):
+                sh.append(("frag", envname, kind))
         sh.append(("littext", "default"))
         return sh
 
@@ -333,7 +455,10 @@ class C10(Check):
         envname = shard[1]
         env = get_env(envname)
         for items in gen_cases(shard, tier):
-            check_case(env, envname, items, res)
+            if shard[0] == "frag":
+                run_frag(envname, items, res)
+            else:
+                check_case(env, envname, items, res)
         return res
 
     def replay(self, case: Any) -> list[dict[str, Any]]:
@@ -342,6 +467,8 @@ class C10(Check):
         reset_memo()
         envname = case["env"]
         items = [tuple(i) for i in case["items"]]
+        if case.get("mode") == "diff":
+            return check_diff(items, None)
         return check_case(get_env(envname), envname, items, None)
 
 
